@@ -240,6 +240,22 @@ let handle kind c =
          prop "counts-invented" (Printf.sprintf "%s: in memory %s + persisted %s > added %s" where (hexn extra) (hexn persisted) (hexn total))
        else if late_use = 0 && N.ltb (N.add extra persisted) total then
          prop "counts-lost" (Printf.sprintf "%s: everything returned, files mapped: in memory %s + persisted %s < added %s" where (hexn extra) (hexn persisted) (hexn total)))
+  | "env" ->
+    (* hostile directory states: oracle only *)
+    let kind = next c in let status = next c in let _parked = next_bool c in
+    let total = next_n c in let extra = next_n c in let persisted = next_n c in let calls = next_int c in
+    let where = (match kind with
+        | "weekends-dir" -> "local/weekends is a directory"
+        | "weekends-dangling" -> "local/weekends is a dangling symbolic link"
+        | "file-deleted" -> "the counter file is deleted while mapped, then a counter needs an extension"
+        | "file-replaced" -> "the counter file is replaced by an empty file while mapped, then a counter needs an extension"
+        | k -> k) in
+    (match status with
+     | "panic" -> prop "panic" (where ^ ": a panic escaped from rotate1 / Counter.Add into the host program")
+     | "hang" -> prop "hang" (Printf.sprintf "%s: rotate1 / Counter.Add did not return within the step budget (%d file-system calls made)" where calls)
+     | _ ->
+       if N.ltb total (N.add extra persisted) then
+         prop "counts-invented" (Printf.sprintf "%s: in memory %s + persisted %s > added %s" where (hexn extra) (hexn persisted) (hexn total)))
   | "openapi" ->
     (* the package-level Open(rotate) in a process of its own, per state of the mode file *)
     let state = next c in let rotate = next_bool c in let status = next c in let created = next_bool c in
